@@ -779,9 +779,13 @@ def run(ctx):
                     via_reshape = zc.reshape(y1.shape).reshape(x.shape)
                     if same_array(via_reshape, via_unfuse) is None:
                         again = via_reshape.reshape(y1.shape).reshape(y2.shape)
-                        d2 = same_array(again, zc)
-                        if d2:
-                            d = 'merging again after un-merging the conjugate: ' + d2
+                        # (the re-merged leg may carry a differently pruned table / sub-index record than the leg that was
+                        # conjugated: compared by value, total charge and directions, and only when the shape comes back)
+                        if tuple(again.shape) == tuple(zc.shape):
+                            if again.charge != zc.charge or list(again.duals) != list(zc.duals):
+                                d = 'merging again after un-merging the conjugate: total charge or directions'
+                            elif not np.array_equal(gen.densify(again), gen.densify(zc)):
+                                d = 'merging again after un-merging the conjugate: values'
                 except Exception:       # noqa: BLE001
                     pass
             if d:
